@@ -132,7 +132,7 @@ pub fn case(rng: &mut Rng) -> String {
         }
         _ => {
             let n = 1 + rng.below(3);
-            let tp = TreeParams { in_dim: n, out_dim: 1 + rng.below(2), max_depth: 2 + rng.below(2), partial16: *rng.pick(&[0, 3]), holes: rng.chance(1, 2) };
+            let tp = TreeParams { in_dim: n, out_dim: 1 + rng.below(2), max_depth: 2 + rng.below(2), partial16: *rng.pick(&[0, 3]), holes: rng.chance(1, 2), palette: 0 };
             let t: AffTree<2> = rand_tree(rng, &tp);
             let dot = rng.chance(1, 2);
             write!(out, "{} ", if dot { "dot" } else { "display" }).unwrap();
